@@ -889,6 +889,7 @@ func genProxyError() (string, error) {
 		stmts: map[string]string{
 			"sid := atomic.LoadUint32(&s.ID)":         "",
 			"err = types.ErrExit":                     "let err := true",
+			"err = nil":                               "let err := false",
 			"s.onUpstreamReset(s.resetReason.Load())": "let s := o.onUpstreamReset s",
 			"s.ResetStream(s.resetReason.Load())":     "let s := o.resetStream s",
 			"variable.SetString(s.context, types.VarProxyIsDirectResponse, types.IsDirectResponse)": "let s := o.markDirect s",
@@ -896,6 +897,7 @@ func genProxyError() (string, error) {
 			"s.retryState = nil":                              "let s := o.clearRetryState s",
 			"if s.retryState != nil { s.retryState.reset() }": "let s := o.releaseRetry s",
 			"s.upstreamRequest.setupRetry = false":            "let s := o.setSetupRetry s false",
+			"s.detachRetriedRequest()":                        "let s := o.detachRetried s",
 			"phase = s.receiverFiltersAgainPhase":             "let phase := o.againPhase s",
 		},
 		skip: isLogStmt,
@@ -955,7 +957,14 @@ structure Ops (σ : Type) where
   clearRetryState : σ → σ
   setSetupRetry : σ → Bool → σ
   setAgainPhase : σ → Phase → σ
+  detachRetried : σ → σ
 `
+	fresh, err := c03dDetachFresh(f)
+	if err != nil {
+		return "", err
+	}
+	s += "/-- downStream.detachRetriedRequest (when processError calls it) installs a NEW upstreamRequest object that has neither a\nstream (requestSender) nor the setupRetry mark: the composite literal assigned to s.upstreamRequest sets only\ndownStream / proxy / protocol / host / connPool.  false when the function is absent or does anything else. -/\n"
+	s += fmt.Sprintf("def detachFresh : Bool := %v\n", fresh)
 	s += "/-- downStream.processError, statement by statement: (state, phase, err ≠ nil); the named results start as (0, nil) -/\n"
 	s += "def processError {σ : Type} (o : Ops σ) (s : σ) : σ × Phase × Bool :=\n  let phase := Phase." + names[0] + "\n  let err := false\n  " + body + "\n"
 	s += footer("ProxyError")
@@ -1215,4 +1224,46 @@ def doRetryCheck (disabled retryOn : Bool) (status : Option Int) (codes : List I
 `
 	s += footer("ProxyRetry")
 	return s, nil
+}
+
+// c03dDetachFresh: the body of downStream.detachRetriedRequest is `old := s.upstreamRequest` followed by ONE assignment
+// `s.upstreamRequest = &upstreamRequest{…}` whose keys are among downStream, proxy, protocol, host, connPool (so the new
+// object has no requestSender and setupRetry == false). An absent function yields false (processError then cannot call it:
+// the translation of the call fails elsewhere).
+func c03dDetachFresh(f *ast.File) (bool, error) {
+	fd := findFunc(f, "downStream", "detachRetriedRequest")
+	if fd == nil || fd.Body == nil {
+		return false, nil
+	}
+	if len(fd.Body.List) != 2 || src(fd.Body.List[0]) != "old := s.upstreamRequest" {
+		return false, nil
+	}
+	as, ok := fd.Body.List[1].(*ast.AssignStmt)
+	if !ok || len(as.Lhs) != 1 || len(as.Rhs) != 1 || src(as.Lhs[0]) != "s.upstreamRequest" || as.Tok != token.ASSIGN {
+		return false, nil
+	}
+	un, ok := as.Rhs[0].(*ast.UnaryExpr)
+	if !ok || un.Op != token.AND {
+		return false, nil
+	}
+	cl, ok := un.X.(*ast.CompositeLit)
+	if !ok || src(cl.Type) != "upstreamRequest" {
+		return false, nil
+	}
+	allowed := map[string]string{"downStream": "s", "proxy": "old.proxy", "protocol": "old.protocol", "host": "old.host", "connPool": "old.connPool"}
+	hasDown := false
+	for _, e := range cl.Elts {
+		kv, ok := e.(*ast.KeyValueExpr)
+		if !ok {
+			return false, nil
+		}
+		want, ok := allowed[src(kv.Key)]
+		if !ok || (src(kv.Value) != want && !(src(kv.Key) == "proxy" && src(kv.Value) == "s.proxy")) {
+			return false, nil
+		}
+		if src(kv.Key) == "downStream" {
+			hasDown = true
+		}
+	}
+	return hasDown, nil
 }
